@@ -12,6 +12,9 @@ import (
 type ChainSpec struct {
 	Initial uint64
 	Blocks  [][][]byte
+	// GenesisTime overrides the fixed genesis time (only needed where third-party library code
+	// compares header times with the wall clock, as go-header's syncer does).
+	GenesisTime time.Time
 }
 
 // Produced is a chain produced by a real aggregator Manager, with the bytes that travel.
@@ -23,10 +26,10 @@ type Produced struct {
 	DA      *DADouble
 	Heights []uint64 // Initial .. tip
 	// per height (index i = height - Initial)
-	HeaderBin  [][]byte   // P2P / store encoding of the signed header
-	DataBin    [][]byte   // P2P / store encoding of the data (with metadata)
-	HeaderBlob [][]byte   // genuine DA blob of the header
-	DataBlob   [][]byte   // genuine DA blob (signed data); nil for empty blocks
+	HeaderBin  [][]byte // P2P / store encoding of the signed header
+	DataBin    [][]byte // P2P / store encoding of the data (with metadata)
+	HeaderBlob [][]byte // genuine DA blob of the header
+	DataBlob   [][]byte // genuine DA blob (signed data); nil for empty blocks
 	HeaderHash [][]byte
 	Txs        [][][]byte
 	Roots      [][]byte // state root after the block
@@ -65,7 +68,7 @@ func ProduceChain(ctx context.Context, spec ChainSpec, keys Keys) (*Produced, er
 	exec := NewExecDouble()
 	seq := NewSeqDouble()
 	da := NewDADouble()
-	n, err := NewNode(ctx, NodeOpts{Aggregator: true, InitialHeight: spec.Initial}, keys, NewMemDS(NewImage()), exec, seq, da, nil)
+	n, err := NewNode(ctx, NodeOpts{Aggregator: true, InitialHeight: spec.Initial, GenesisTime: spec.GenesisTime}, keys, NewMemDS(NewImage()), exec, seq, da, nil)
 	if err != nil {
 		return nil, err
 	}
@@ -73,6 +76,9 @@ func ProduceChain(ctx context.Context, spec ChainSpec, keys Keys) (*Produced, er
 		return nil, fmt.Errorf("genesis step: %w", err)
 	}
 	t := GenesisTime
+	if !spec.GenesisTime.IsZero() {
+		t = spec.GenesisTime
+	}
 	for _, txs := range spec.Blocks {
 		t = t.Add(time.Second)
 		if len(txs) == 0 {
